@@ -213,11 +213,16 @@ EksSetup(cost, salt, key) == EksRounds(EksExpandSalted(EksInit, salt, key), salt
 Orphean == <<79,114,112,104,101,97,110,66,101,104,111,108,100,101,114,83,99,114,121,68,111,117,98,116>>
 RECURSIVE EncN(_,_,_)
 EncN(c, w, n) == IF n = 0 THEN w ELSE EncN(c, BF!BfEncW(c, w[1], w[2]), n - 1)
-BcryptRaw(cost, salt, key) == LET c == EksSetup(cost, salt, key)
-                                  a == EncN(c, <<BF!WordBE(Orphean, 1), BF!WordBE(Orphean, 5)>>, 64)
-                                  b == EncN(c, <<BF!WordBE(Orphean, 9), BF!WordBE(Orphean, 13)>>, 64)
-                                  d == EncN(c, <<BF!WordBE(Orphean, 17), BF!WordBE(Orphean, 21)>>, 64)
-                              IN BF!BytesBE(a[1]) \o BF!BytesBE(a[2]) \o BF!BytesBE(b[1]) \o BF!BytesBE(b[2]) \o BF!BytesBE(d[1]) \o BF!BytesBE(d[2])
+BcryptRawFrom(c) == LET a == EncN(c, <<BF!WordBE(Orphean, 1), BF!WordBE(Orphean, 5)>>, 64)
+                        b == EncN(c, <<BF!WordBE(Orphean, 9), BF!WordBE(Orphean, 13)>>, 64)
+                        d == EncN(c, <<BF!WordBE(Orphean, 17), BF!WordBE(Orphean, 21)>>, 64)
+                    IN BF!BytesBE(a[1]) \o BF!BytesBE(a[2]) \o BF!BytesBE(b[1]) \o BF!BytesBE(b[2]) \o BF!BytesBE(d[1]) \o BF!BytesBE(d[2])
+BcryptRaw(cost, salt, key) == BcryptRawFrom(EksSetup(cost, salt, key))
+\* the same setup as a chain of 1 + 2 * 2^cost key expansions, so that each link can be checked on its own against claimed intermediate
+\* states (KdfTrace, "eks-link" records): link 0 is the salted expansion of the initial state, odd links expand with the key, even links
+\* with the salt
+EksLinkCount(cost) == 1 + 2 * (2 ^ cost)
+EksLink(i, sIn, salt, key) == IF i = 0 THEN EksExpandSalted(EksInit, salt, key) ELSE IF i % 2 = 1 THEN EksExpand0(sIn, key) ELSE EksExpand0(sIn, salt)
 \* the radix-64 encoding of bcrypt: alphabet "./A-Za-z0-9", most significant bits first, no padding characters
 B64Alphabet == <<46,47,65,66,67,68,69,70,71,72,73,74,75,76,77,78,79,80,81,82,83,84,85,86,87,88,89,90,97,98,99,100,101,102,103,104,105,106,107,108,
                  109,110,111,112,113,114,115,116,117,118,119,120,121,122,48,49,50,51,52,53,54,55,56,57>>
